@@ -77,6 +77,7 @@ pub fn budget(prop: &str, tier: Tier) -> u64 {
 pub fn gen_case(prop: &str, tier: Tier, seed: u64) -> Case {
     match prop {
         "C01" => seqprops::gen_c01(tier, seed),
+        "C04" if seed % 8 == 0 => thrprops::gen_c04t(tier, seed),
         "C04" => seqprops::gen_c04(tier, seed),
         // every 4th case of these families is a THR (scheduled threads) case
         "C05" if seed % 4 == 0 => thrprops::gen_c05t(tier, seed),
